@@ -9,7 +9,8 @@ Definition entries_of (ss : list sym) : list entry :=
   flat_map (fun s => mkE (s_local s) false (s_key s) (s_loc s) ::
                      map (fun c => mkE (s_local s) true (c_key c) (c_loc c)) (s_children s)) ss.
 
-Inductive cls := ClsRewrite | ClsShadowed | ClsAssignedFunc | ClsMemberLost | ClsMemberUndeclared | ClsForeign | ClsUnexplained.
+Inductive cls := ClsRewrite | ClsShadowed | ClsAssignedFunc | ClsMemberLost | ClsMemberUndeclared | ClsForeign | ClsUnexplained
+                 | ClsMemberDepth2 | ClsWsRedeclared | ClsWsNested | ClsWsGMember.
 
 Definition count_local (n : bytes) (ds : list decl) : nat :=
   length (filter (fun d => match d_kind d with DLocal => beq_bytes (d_key d) n | _ => false end) ds).
@@ -25,15 +26,102 @@ Definition assigned_func_entry (d : decl) (ss : list sym) : bool :=
                          && negb (contains (s_loc s) (s_decl s))
              | DGlobal => negb (s_local s) && beq_bytes (s_key s) (d_key d) && s_fn s && existsb (loc_eqb (s_decl s)) (d_locs d)
                           && negb (contains (s_loc s) (s_decl s))
+             | DLocalFn => false
              end) ss.
 
 Definition is_covered (v : verdict) : bool := match v with Covered => true | _ => false end.
+
+(* ---------------------------------------------------------------------- exact classes of the OPEN findings
+   member_depth2: a function-valued member below the first level (`function N.sub.h`, `N = { sub = { f = function } }`):
+   neither answer descends below the members of a variable. *)
+Definition member_depth (key : bytes) : nat := count_dots key.
+Definition cls_depth2 (d : decl) : bool :=
+  match d_kind d with DFunc => Nat.leb 2 (member_depth (d_key d)) | _ => false end.
+
+(* weighted count of the places where the file binds the name b as a whole, at any depth, whatever the scoping
+   (fuel: nesting depth): wl for `local b` / `local function b`, wp for a parameter / loop variable b,
+   wa for `b = ...` / `function b() end` / `_G.b = ...`, wg for a member target through the table of globals `_G.b.k... = ` *)
+Section Defs.
+  Variable wl wp wa wg : nat.
+  Variable b : bytes.
+  Definition hit (w : nat) (nm : bytes) : nat := if beq_bytes nm b then w else 0.
+  Definition hits (w : nat) (nms : list bytes) : nat := fold_right (fun nm a => hit w nm + a) 0 nms.
+
+  Fixpoint defs_exp (n : nat) (e : exp) {struct n} : nat :=
+    match n with
+    | O => 0
+    | S n' =>
+      match e with
+      | EUnop _ e1 _ | EParens e1 _ => defs_exp n' e1
+      | EBinop _ e1 e2 _ | EIndex e1 e2 _ => defs_exp n' e1 + defs_exp n' e2
+      | ETable ks vs _ =>
+        fold_right (fun k a => match k with Some ke => defs_exp n' ke | None => 0 end + a) 0 ks +
+        fold_right (fun v a => defs_exp n' v + a) 0 vs
+      | EFunc _ _ pars _ bl _ _ _ => hits wp pars + defs_block n' bl
+      | ECall p _ args _ => defs_exp n' p + fold_right (fun v a => defs_exp n' v + a) 0 args
+      | _ => 0
+      end
+    end
+  with defs_stat (n : nat) (s : stat) {struct n} : nat :=
+    match n with
+    | O => 0
+    | S n' =>
+      let ex := defs_exp n' in
+      let sum := fold_right (fun v a => ex v + a) 0 in
+      match s with
+      | SBreak | SLabel _ _ | SGoto _ _ => 0
+      | SDo bl _ => defs_block n' bl
+      | SCall e => ex e
+      | SIf es bs _ => sum es + fold_right (fun bl a => defs_block n' bl + a) 0 bs
+      | SWhile e bl _ | SRepeat bl e _ => ex e + defs_block n' bl
+      | SForNum nm _ e1 e2 e3 bl _ => hit wp nm + ex e1 + ex e2 + ex e3 + defs_block n' bl
+      | SForIn nms _ es bl _ => hits wp nms + sum es + defs_block n' bl
+      | SAssign vars es _ =>
+        fold_right (fun t a => (match target_path t with
+                                | Some (nm, []) => hit wa nm
+                                | Some (g, [(k, _)]) => if beq_bytes g SymbolSpec.s_G then hit wa k else 0
+                                | Some (g, (k, _) :: _ :: _) => if beq_bytes g SymbolSpec.s_G then hit wg k else 0
+                                | None => ex t
+                                end) + a) 0 vars + sum es
+      | SLocal nms _ _ es _ => hits wl nms + sum es
+      | SLocalFunc nm _ f _ => hit wl nm + ex f
+      end
+    end
+  with defs_block (n : nat) (bl : block) {struct n} : nat :=
+    match n with
+    | O => 0
+    | S n' =>
+      match bl with
+      | Block ss ret _ =>
+        fold_right (fun s a => defs_stat n' s + a) 0 ss +
+        match ret with Some es => fold_right (fun v a => defs_exp n' v + a) 0 es | None => 0 end
+      end
+    end.
+End Defs.
+
+(* member_lost, first-level member b.k with no child entry located at one of its function definitions, in one of the
+   three shapes:
+   (a) an entry named b is function-valued (function entries never get children);
+   (c) there IS a child entry b.k, located at another (earlier, non-function) definition of the key: first definition wins;
+   (d) b is bound as a whole more than once in the file (a later definition / re-assignment of the variable replaces
+       or keeps the member table of an earlier one);
+   (e) the member is defined through the table of globals, `_G.b.k = ...`, while the file also binds b as a local,
+       parameter or loop variable (the use of `_G.b` is not recorded when such a local is in scope). *)
+Definition shape_fn_base (b : bytes) (ss : list sym) : bool := existsb (fun s => beq_bytes (s_key s) b && s_fn s) ss.
+Definition shape_key_taken (d : decl) (ss : list sym) : bool :=
+  existsb (fun s => existsb (fun c => beq_bytes (c_key c) (d_key d) && negb (existsb (loc_eqb (c_decl c)) (d_locs d)))
+                            (s_children s)) ss.
+Definition shape_rebound (fuel : nat) (blk : block) (b : bytes) : bool := Nat.leb 2 (defs_block 1 0 1 0 b fuel blk).
+Definition shape_G_shadowed (fuel : nat) (blk : block) (b : bytes) : bool :=
+  Nat.leb 1 (defs_block 1 1 0 0 b fuel blk) && Nat.leb 1 (defs_block 0 0 0 1 b fuel blk).
 
 Section Judge.
   Variable lens : list Z.
   Variable st : state.
   Variable ds : list decl.
   Variable foreign : list bytes.     (* Symbols.foreign_globals of this file *)
+  Variable fuel : nat.
+  Variable blk : block.              (* the file's AST (for shape_rebound) *)
 
   Definition base_of (d : decl) : bytes :=
     match d_kind d with
@@ -44,10 +132,20 @@ Section Judge.
   Definition out (fx : fixes) : list sym := find_all_symbol fx st.
 
   Definition base_declared (d : decl) : bool :=
-    existsb (fun d0 => match d_kind d0 with DFunc => false | _ => beq_bytes (d_key d0) (base_of d) end) ds.
+    existsb (fun d0 => match d_kind d0 with DFunc | DLocalFn => false | _ => beq_bytes (d_key d0) (base_of d) end) ds.
+
+  (* the exact class member_lost (first-level members only) *)
+  Definition cls_member_lost (fx : fixes) (d : decl) : bool :=
+    match d_kind d with
+    | DFunc => negb (cls_depth2 d) &&
+               (shape_fn_base (base_of d) (out fx) || shape_key_taken d (out fx) || shape_rebound fuel blk (base_of d)
+                || shape_G_shadowed fuel blk (base_of d))
+    | _ => false
+    end.
 
   (* the cause of a deviation of variant fx: covered by the fully repaired outline = one of the repaired defects
-     (which one: the tests below, in this order), otherwise one of the defects that are still open *)
+     (which one: the tests below, in this order), otherwise one of the defects that are still open - each with an
+     exact predicate; a deviation that fits none is ClsUnexplained (never an open class: VIOLATION) *)
   Definition explain (fx : fixes) (d : decl) : cls :=
     if is_covered (judge_decl lens (entries_of (out fx_all)) d) then
       if (match d_kind d with DLocal => Nat.ltb 1 (count_local (d_key d) ds) | _ => false end) then ClsShadowed
@@ -57,16 +155,38 @@ Section Judge.
     else if (match d_kind d with DLocal => false | _ => existsb (beq_bytes (base_of d)) foreign end) then ClsForeign
     else match d_kind d with
          | DFunc =>
-           (* before fixes/C19-member-of-undeclared.diff: the table is declared neither as a top-level local nor as a
-              global of this file *)
-           if base_declared d || fx_undecl fx then ClsMemberLost else ClsMemberUndeclared
+           if cls_depth2 d then ClsMemberDepth2
+           else if negb (base_declared d || fx_undecl fx) then ClsMemberUndeclared
+           else if cls_member_lost fx d then ClsMemberLost
+           else ClsUnexplained
          | _ => ClsUnexplained
          end.
 
   (* verdict of the outline of variant fx, with the cause of each deviation *)
   Definition judge_all (fx : fixes) : list (decl * verdict * option cls) :=
-    map (fun d => let v := judge_decl lens (entries_of (out fx)) d in
-                  (d, v, if is_covered v then None else Some (explain fx d))) ds.
+    flat_map (fun d => if outline_demand d then
+                         let v := judge_decl lens (entries_of (out fx)) d in
+                         [(d, v, if is_covered v then None else Some (explain fx d))]
+                       else []) ds.
+
+  (* the cause of a declaration that the workspace/symbol answer of variant fx misses *)
+  Definition explain_ws (fx : fixes) (d : decl) : cls :=
+    match d_kind d with
+    | DFunc =>
+      if cls_depth2 d then ClsMemberDepth2
+      else if negb (base_declared d || fx_undecl fx) then ClsMemberUndeclared
+      else if negb (fx_wsgmem fx) &&
+              existsb (fun kv => beq_bytes (fst kv) (base_of d) && v_gflag (snd kv)) (globs st) then ClsWsGMember
+      else if cls_member_lost fx d then ClsMemberLost
+      else ClsUnexplained
+    | DLocalFn =>
+      if negb (fx_wsdecl fx) && Nat.ltb 1 (length (filter (fun d0 => match d_kind d0 with
+                                                                     | DLocalFn | DLocal => beq_bytes (d_key d0) (d_key d)
+                                                                     | _ => false end) ds)) then ClsWsRedeclared
+      else if negb (fx_wsnested fx) then ClsWsNested
+      else ClsUnexplained
+    | _ => ClsUnexplained
+    end.
 End Judge.
 
 (* workspace/symbol: every file's DGlobal / DFunc declaration named q must be answered *)
@@ -77,14 +197,13 @@ Definition ws_judge (q : bytes) (per_file : list (nat * list decl)) (ans : list 
   flat_map (fun fd =>
               flat_map (fun d => match d_kind d with
                                  | DLocal => []
-                                 | _ => if beq_bytes (d_key d) q then [(fst fd, d, ws_covers (fst fd) d ans)] else []
+                                 | _ => if beq_bytes (d_key d) q then [(fst fd, d, ws_covers (fst fd) d ans)] else []    (* DGlobal, DFunc, DLocalFn *)
                                  end) (snd fd)) per_file.
 
 (* ------------------------------------------------------------------ fragment *)
-(* what the deciding leg may contain: no `_G` / `self` as (the base of) an assignment target, no `local` statement
+(* what the deciding leg may contain: no `self` as the base of an assignment target, no assignment to `_G` itself, no `local` statement
    with a function literal in its second or a later value (LuaHelper adds the first name before it analyses the
    later values, so an assignment to that name inside such a function is taken for an assignment to the local). *)
-Definition s_G' : bytes := s_G.
 
 Fixpoint target_base (e : exp) : option bytes :=
   match e with
@@ -94,9 +213,10 @@ Fixpoint target_base (e : exp) : option bytes :=
   | _ => None
   end.
 
+(* `_G.a...` targets are modelled; a bare `_G = v` and `self` are not *)
 Definition bad_target (e : exp) : bool :=
   match target_base e with
-  | Some n => beq_bytes n s_G || beq_bytes n s_self
+  | Some n => (beq_bytes n Symbols.s_G && match e with EName _ _ => true | _ => false end) || beq_bytes n s_self
   | None => match e with EIndex _ _ _ => true | _ => false end      (* call / string / ... prefix *)
   end.
 
